@@ -2,6 +2,7 @@
 # regenerate MANIFEST.json from the list of built checks
 import json, sys
 DONE = {
+ 'C01': 'WithdrawUnbonded from an arbitrary INV-HUB state with 1..2 matured batches (+ an already released one): payable <= arrived, dust bound, payout = recorded share at final rates, H5 preserved, claims removed / never paid twice, never fails for funds, order independence by non-interference; arithmetic kernels checked against closed forms',
  'C02': 'books <= delegations after every pricing operation; Delegate messages = payment to registered validators; undelegation removes exactly what it undelegates',
  'C03': 'State query and every handler price with pool/(supply+requests); mint/convert/undelegate amounts are the floor formulas; roundings favour the pool; zero payments rejected',
  'C04': 'for every hub operation the post-transaction rate of both tokens is not below the synchronised pre-rate (known finding: zero-pool corner)',
